@@ -197,7 +197,7 @@ def _affix_tests(ctx: Ctx, folder: Folder, f: FuncInfo, depth: int = 0, seen: se
                 out[c.func.attr] |= v
             continue
         t = ctx.prog.resolve_call(f, c)
-        if isinstance(t, list) and len(t) == 1 and t[0].module is f.module and not isinstance(t[0].node, ast.Lambda):
+        if isinstance(t, list) and len(t) == 1 and not isinstance(t[0].node, ast.Lambda):
             sub = _affix_tests(ctx, folder, t[0], depth + 1, seen)
             for k in out:
                 out[k] |= sub[k]
